@@ -385,6 +385,8 @@ pub enum Item {
         fb: Option<ServiceFeedback>,
     },
     Fail,
+    /// a stream item without a response, only feedback
+    Feedback(ServiceFeedback),
 }
 
 #[derive(Default)]
@@ -524,6 +526,7 @@ impl futures_util::stream::Stream for ScriptStream {
                 let item = sc.items.pop_front().unwrap();
                 match item {
                     Item::Fail => Poll::Ready(Some(Err(ServiceError::InternalError))),
+                    Item::Feedback(fb) => Poll::Ready(Some(Ok(CallResult::feedback_only(fb)))),
                     Item::Resp { len, optlen, fb } => {
                         sc.yielded += 1;
                         let k = sc.yielded;
